@@ -1,1 +1,787 @@
-//! (placeholder; filled in by the check that owns it)
+//! Generated stacks with ground truth (C04) and the walking helpers shared by C04 and C05.
+//!
+//! The conventions encoded here are the ones the walker sources document (DESIGN Appendix A):
+//! technique priority CFI/STACK WIN > frame pointer > scan, scan windows (40 words, 160 after
+//! the context frame; MIPS 1024 bytes with a 4-word skip for non-context callees on MIPS32),
+//! amd64-on-Windows frame-pointer slack (<= 240 bytes, 16-byte steps), leaf first frame on
+//! ARM/ARM64/MIPS, frame pointers on ARM only for iOS, pointer-authentication stripping on
+//! ARM64, STACK WIN framedata / fpo layouts as described in walker.rs.
+use crate::core::{guard, PanicInfo};
+use minidump::format::*;
+use minidump::system_info::{Cpu, Os};
+use minidump::*;
+use minidump_unwind::*;
+use std::cell::Cell;
+use std::collections::{BTreeMap, BTreeSet, HashMap, HashSet};
+
+// ---------------------------------------------------------------------------------------------
+// architectures
+
+#[derive(Clone, Copy, PartialEq, Eq, Debug, Hash, PartialOrd, Ord)]
+pub enum Arch {
+    X86,
+    Amd64,
+    Arm,
+    Arm64,
+    Arm64Old,
+    Mips32,
+    Mips64,
+}
+
+impl Arch {
+    /// names the walker (file) that handles the architecture
+    pub fn name(self) -> &'static str {
+        match self {
+            Arch::X86 => "x86",
+            Arch::Amd64 => "amd64",
+            Arch::Arm => "arm",
+            Arch::Arm64 => "arm64",
+            Arch::Arm64Old => "arm64_old",
+            Arch::Mips32 => "mips32",
+            Arch::Mips64 => "mips64",
+        }
+    }
+    pub fn ptr(self) -> u64 {
+        match self {
+            Arch::X86 | Arch::Arm | Arch::Mips32 => 4,
+            _ => 8,
+        }
+    }
+    /// documented return-address adjustment (call instruction lookup address = ra - adj)
+    pub fn adj(self) -> u64 {
+        match self {
+            Arch::X86 | Arch::Amd64 => 1,
+            Arch::Arm => 2,
+            Arch::Arm64 | Arch::Arm64Old => 4,
+            Arch::Mips32 | Arch::Mips64 => 8,
+        }
+    }
+    /// highest address of the machine word
+    pub fn top(self) -> u64 {
+        if self.ptr() == 4 {
+            u32::MAX as u64
+        } else {
+            u64::MAX
+        }
+    }
+    pub fn ip(self) -> &'static str {
+        match self {
+            Arch::X86 => "eip",
+            Arch::Amd64 => "rip",
+            _ => "pc",
+        }
+    }
+    pub fn sp(self) -> &'static str {
+        match self {
+            Arch::X86 => "esp",
+            Arch::Amd64 => "rsp",
+            _ => "sp",
+        }
+    }
+    pub fn fp(self) -> &'static str {
+        match self {
+            Arch::X86 => "ebp",
+            Arch::Amd64 => "rbp",
+            _ => "fp",
+        }
+    }
+    pub fn lr(self) -> Option<&'static str> {
+        match self {
+            Arch::X86 | Arch::Amd64 => None,
+            Arch::Arm | Arch::Arm64 | Arch::Arm64Old => Some("lr"),
+            Arch::Mips32 | Arch::Mips64 => Some("ra"),
+        }
+    }
+    /// two callee-saved general registers (besides the frame pointer) tracked by the C04 ground truth
+    pub fn cs(self) -> [&'static str; 2] {
+        match self {
+            Arch::X86 => ["ebx", "esi"],
+            Arch::Amd64 => ["rbx", "r12"],
+            Arch::Arm => ["r4", "r5"],
+            Arch::Arm64 | Arch::Arm64Old => ["x19", "x20"],
+            Arch::Mips32 | Arch::Mips64 => ["s0", "s1"],
+        }
+    }
+    /// leaf functions may keep the return address in a register (first frame may repeat sp)
+    pub fn has_leaf(self) -> bool {
+        self.lr().is_some()
+    }
+    pub fn cpu(self) -> Cpu {
+        match self {
+            Arch::X86 => Cpu::X86,
+            Arch::Amd64 => Cpu::X86_64,
+            Arch::Arm => Cpu::Arm,
+            Arch::Arm64 | Arch::Arm64Old => Cpu::Arm64,
+            Arch::Mips32 => Cpu::Mips,
+            Arch::Mips64 => Cpu::Mips64,
+        }
+    }
+    pub fn is_mips(self) -> bool {
+        matches!(self, Arch::Mips32 | Arch::Mips64)
+    }
+    /// Largest frame size (in words) whose return-address slot (the last word of the frame) is
+    /// still inside the documented scan window of a callee starting at the frame's sp.
+    pub fn scan_window(self, callee_is_context: bool) -> u64 {
+        match self {
+            Arch::Mips32 => 256, // 1024 bytes; non-context callees skip 4 words and scan the other 252
+            Arch::Mips64 => 128,
+            _ => {
+                if callee_is_context {
+                    160
+                } else {
+                    40
+                }
+            }
+        }
+    }
+    /// Smallest frame size (words) a scanned non-context frame can have (MIPS32 skips 4 words).
+    pub fn scan_min(self, callee_is_context: bool) -> u64 {
+        if self == Arch::Mips32 && !callee_is_context {
+            5
+        } else {
+            1
+        }
+    }
+    /// spelling of a register in STACK CFI text
+    pub fn cfi_name(self, reg: &str, alias: bool) -> String {
+        match self {
+            Arch::X86 | Arch::Amd64 | Arch::Mips32 | Arch::Mips64 => format!("${reg}"),
+            Arch::Arm => match (reg, alias) {
+                ("fp", true) => "r11".into(),
+                ("sp", true) => "r13".into(),
+                ("lr", true) => "r14".into(),
+                _ => reg.into(),
+            },
+            Arch::Arm64 | Arch::Arm64Old => match (reg, alias) {
+                ("fp", true) => "x29".into(),
+                ("lr", true) => "x30".into(),
+                _ => reg.into(),
+            },
+        }
+    }
+}
+
+pub const MIPS32_FLAGS: u32 = 0x0004_0007;
+pub const MIPS64_FLAGS: u32 = 0x0008_0007;
+
+/// Build a raw CPU context with the named registers set (everything else zero).
+pub fn raw_context(arch: Arch, regs: &[(&str, u64)]) -> MinidumpRawContext {
+    macro_rules! fill {
+        ($c:expr, $t:ty) => {{
+            let mut c = $c;
+            for (n, v) in regs {
+                c.set_register(n, *v as $t).expect("harness: known register name");
+            }
+            c
+        }};
+    }
+    match arch {
+        Arch::X86 => MinidumpRawContext::X86(fill!(CONTEXT_X86::default(), u32)),
+        Arch::Amd64 => MinidumpRawContext::Amd64(fill!(CONTEXT_AMD64::default(), u64)),
+        Arch::Arm => MinidumpRawContext::Arm(fill!(CONTEXT_ARM::default(), u32)),
+        Arch::Arm64 => MinidumpRawContext::Arm64(fill!(CONTEXT_ARM64::default(), u64)),
+        Arch::Arm64Old => MinidumpRawContext::OldArm64(fill!(CONTEXT_ARM64_OLD::default(), u64)),
+        Arch::Mips32 => {
+            let mut c = CONTEXT_MIPS::default();
+            c.context_flags = MIPS32_FLAGS;
+            MinidumpRawContext::Mips(fill!(c, u64))
+        }
+        Arch::Mips64 => {
+            let mut c = CONTEXT_MIPS::default();
+            c.context_flags = MIPS64_FLAGS;
+            MinidumpRawContext::Mips(fill!(c, u64))
+        }
+    }
+}
+
+pub fn system_info(arch: Arch, os: Os) -> SystemInfo {
+    SystemInfo { os, os_version: None, os_build: None, cpu: arch.cpu(), cpu_info: None, cpu_microcode_version: None, cpu_count: 1 }
+}
+
+pub fn os_name(os: Os) -> &'static str {
+    match os {
+        Os::Windows => "windows",
+        Os::Linux => "linux",
+        Os::MacOs => "macos",
+        Os::Ios => "ios",
+        Os::Android => "android",
+        _ => "other",
+    }
+}
+
+pub fn words_to_bytes(words: &[u64], ptr: u64) -> Vec<u8> {
+    let mut b = Vec::with_capacity(words.len() * ptr as usize);
+    for w in words {
+        if ptr == 4 {
+            b.extend_from_slice(&(*w as u32).to_le_bytes());
+        } else {
+            b.extend_from_slice(&w.to_le_bytes());
+        }
+    }
+    b
+}
+
+/// Independent little-endian word reader over (base, bytes): `None` unless the whole word lies
+/// inside the region (no wrap-around).
+pub fn read_word(base: u64, bytes: &[u8], ptr: u64, addr: u64) -> Option<u64> {
+    let off = addr.checked_sub(base)?;
+    let end = off.checked_add(ptr)?;
+    if end > bytes.len() as u64 {
+        return None;
+    }
+    let s = &bytes[off as usize..end as usize];
+    Some(if ptr == 4 { u32::from_le_bytes(s.try_into().unwrap()) as u64 } else { u64::from_le_bytes(s.try_into().unwrap()) })
+}
+
+/// True when frame `f` of a MIPS64 thread no longer carries the `CONTEXT_MIPS64` flag.
+pub fn mips64_flag_lost(f: &StackFrame) -> bool {
+    match &f.context.raw {
+        MinidumpRawContext::Mips(c) => c.context_flags & 0x0008_0000 == 0,
+        _ => false,
+    }
+}
+
+// ---------------------------------------------------------------------------------------------
+// running the real walker
+
+thread_local! {
+    static RT: tokio::runtime::Runtime = tokio::runtime::Builder::new_current_thread().build().expect("harness: tokio runtime");
+}
+
+const BUDGET_MSG: &str = "vh-frame-budget-sentinel";
+
+pub enum WalkEnd {
+    /// the walk returned; the call stack as the walker left it
+    Done(CallStack),
+    /// the `on_walked_frame` sentinel cut the walk after `budget + 1` frames
+    Budget { frames: usize },
+    /// the walker panicked
+    Panic(PanicInfo),
+}
+
+pub fn symbolizer(symbols: &BTreeMap<String, String>) -> Symbolizer {
+    let map: HashMap<String, String> = symbols.iter().map(|(k, v)| (k.clone(), v.clone())).collect();
+    Symbolizer::new(string_symbol_supplier(map))
+}
+
+pub fn module_list(mods: &[(String, u64, u64)]) -> MinidumpModuleList {
+    MinidumpModuleList::from_modules(mods.iter().map(|(n, b, s)| MinidumpModule::new(*b, u32::try_from(*s).expect("harness: module size"), n)).collect())
+}
+
+/// Walk one thread with the real `walk_stack`. `budget` = largest acceptable number of frames;
+/// the callback unwinds with a sentinel as soon as frame index `budget` (the budget+1-th frame)
+/// is reported, so a walk can never run unbounded.
+pub fn walk(ctx: MinidumpContext, base: u64, bytes: &[u8], modules: &MinidumpModuleList, si: &SystemInfo, sym: &Symbolizer, budget: usize) -> WalkEnd {
+    let mem = MinidumpMemory { desc: Default::default(), base_address: base, size: bytes.len() as u64, bytes, endian: scroll::LE };
+    let seen = Cell::new(0usize);
+    let r = guard(|| {
+        let mut cs = CallStack::with_context(ctx);
+        let seen = &seen;
+        // SAFETY of the sentinel: the closure only reads/writes a Cell<usize>.
+        struct SendCell<'a>(&'a Cell<usize>);
+        unsafe impl Send for SendCell<'_> {}
+        let sc = SendCell(seen);
+        RT.with(|rt| {
+            rt.block_on(walk_stack(
+                0,
+                move |i: usize, _: &StackFrame| {
+                    let sc = &sc;
+                    sc.0.set(i + 1);
+                    if i >= budget {
+                        panic!("{}", BUDGET_MSG);
+                    }
+                },
+                &mut cs,
+                Some(UnifiedMemory::Memory(&mem)),
+                modules,
+                si,
+                sym,
+            ))
+        });
+        cs
+    });
+    match r {
+        Ok(cs) => WalkEnd::Done(cs),
+        Err(p) if p.msg == BUDGET_MSG => WalkEnd::Budget { frames: seen.get() },
+        Err(p) => WalkEnd::Panic(p),
+    }
+}
+
+// ---------------------------------------------------------------------------------------------
+// C04: stack programs with ground truth
+
+#[derive(Clone, Copy, PartialEq, Eq, Debug, Hash, PartialOrd, Ord)]
+pub enum Tech {
+    /// STACK CFI record
+    Cfi,
+    /// frame-pointer chain of the platform calling convention
+    Fp,
+    /// nothing but the return address on the stack: findable only by scanning
+    Scan,
+    /// STACK WIN type 4 (program string), x86
+    WinFd,
+    /// STACK WIN type 0 (fpo), x86
+    WinFpo,
+    /// stackless leaf described by CFI (`.cfa: sp`, `.ra: lr`), first frame on ARM/ARM64/MIPS only
+    Leaf,
+}
+impl Tech {
+    pub fn name(self) -> &'static str {
+        match self {
+            Tech::Cfi => "cfi",
+            Tech::Fp => "fp",
+            Tech::Scan => "scan",
+            Tech::WinFd => "win-framedata",
+            Tech::WinFpo => "win-fpo",
+            Tech::Leaf => "cfi-leaf",
+        }
+    }
+    pub fn trust(self) -> FrameTrust {
+        match self {
+            Tech::Fp => FrameTrust::FramePointer,
+            Tech::Scan => FrameTrust::Scan,
+            _ => FrameTrust::CallFrameInfo,
+        }
+    }
+}
+
+#[derive(Clone, Copy, Debug, PartialEq, Eq)]
+pub struct Variant {
+    pub arch: Arch,
+    pub os: Os,
+    pub techs: &'static [Tech],
+}
+impl Variant {
+    pub fn label(&self) -> String {
+        format!("{}-{}", self.arch.name(), os_name(self.os))
+    }
+}
+
+/// CPU x OS configurations of C04 (the OS matters to the walker only on amd64 and arm; the x86
+/// variant carries the STACK WIN techniques).
+pub const VARIANTS: &[Variant] = &[
+    Variant { arch: Arch::X86, os: Os::Windows, techs: &[Tech::Cfi, Tech::Fp, Tech::Scan, Tech::WinFd, Tech::WinFpo] },
+    Variant { arch: Arch::Amd64, os: Os::Linux, techs: &[Tech::Cfi, Tech::Fp, Tech::Scan] },
+    Variant { arch: Arch::Amd64, os: Os::Windows, techs: &[Tech::Cfi, Tech::Fp, Tech::Scan] },
+    Variant { arch: Arch::Arm, os: Os::Android, techs: &[Tech::Cfi, Tech::Scan, Tech::Leaf] },
+    Variant { arch: Arch::Arm, os: Os::Ios, techs: &[Tech::Cfi, Tech::Fp, Tech::Scan, Tech::Leaf] },
+    Variant { arch: Arch::Arm64, os: Os::MacOs, techs: &[Tech::Cfi, Tech::Fp, Tech::Scan, Tech::Leaf] },
+    Variant { arch: Arch::Arm64Old, os: Os::Ios, techs: &[Tech::Cfi, Tech::Fp, Tech::Scan, Tech::Leaf] },
+    Variant { arch: Arch::Mips32, os: Os::Linux, techs: &[Tech::Cfi, Tech::Scan, Tech::Leaf] },
+    Variant { arch: Arch::Mips64, os: Os::Linux, techs: &[Tech::Cfi, Tech::Scan, Tech::Leaf] },
+];
+
+/// Frame-size menu (words). choice 0: small; 1: the scan-window edge (return address in the
+/// last word of the window: 40 / 160 words, MIPS 256 / 128); 2: typical; 3: window edge - 1.
+pub fn size_choice(arch: Arch, frame_index: usize, choice: u64) -> u64 {
+    let w = arch.scan_window(frame_index == 0);
+    match choice {
+        0 => 6,
+        1 => w,
+        2 => 9,
+        _ => w - 1,
+    }
+}
+
+/// Per-frame style, derived from the program-wide style number and the frame index.
+#[derive(Clone, Copy, Debug)]
+pub struct FrameStyle {
+    /// which registers the function saves in its frame (and then clobbers): bit0 frame pointer,
+    /// bit1 / bit2 the two tracked callee-saved registers
+    pub mask: u8,
+    /// CFI given as an INIT record for the entry state plus a delta record (and a later delta
+    /// that must not apply yet)
+    pub split: bool,
+    /// amd64 on Windows: the frame pointer points `16 * slack` bytes below the saved-rbp slot
+    pub slack: u64,
+    /// STACK WIN records declare 4 bytes of parameters (changes the next frame's layout)
+    pub params: bool,
+    /// ARM / ARM64: CFI uses the numeric register spellings (r11, x29, ...)
+    pub alias: bool,
+    /// ARM64: saved lr / fp carry pointer-authentication bits
+    pub pac: bool,
+}
+pub const STYLES: u64 = 8;
+pub fn style_of(style: u64, i: usize) -> (FrameStyle, u8) {
+    // returns (style, number of modules)
+    match style {
+        0 => (FrameStyle { mask: 0, split: false, slack: 0, params: false, alias: false, pac: false }, 1),
+        1 => (FrameStyle { mask: 7, split: true, slack: 1, params: true, alias: true, pac: true }, 2),
+        2 => (FrameStyle { mask: if i % 2 == 0 { 1 } else { 6 }, split: false, slack: 15, params: false, alias: false, pac: true }, 1),
+        3 => (FrameStyle { mask: ((i + 1) % 8) as u8, split: true, slack: 2, params: i % 2 == 1, alias: true, pac: false }, 2),
+        4 => (FrameStyle { mask: 1, split: false, slack: 3, params: false, alias: false, pac: false }, 1),
+        5 => (FrameStyle { mask: 6, split: true, slack: 7, params: true, alias: false, pac: true }, 2),
+        6 => (FrameStyle { mask: (7 - (i % 8)) as u8, split: false, slack: 15, params: false, alias: true, pac: false }, 1),
+        _ => (FrameStyle { mask: if i % 2 == 0 { 2 } else { 4 }, split: true, slack: 0, params: i % 2 == 0, alias: false, pac: true }, 2),
+    }
+}
+
+#[derive(Clone, Debug, PartialEq, Eq, Hash)]
+pub struct Program {
+    pub variant: usize,
+    /// (technique by which the walker must get from frame i to frame i+1, frame size in words)
+    pub frames: Vec<(Tech, u64)>,
+    pub style: u64,
+}
+
+#[derive(Clone, Debug)]
+pub struct ExpFrame {
+    pub resume: u64,
+    pub instruction: u64,
+    pub sp: u64,
+    pub trust: FrameTrust,
+    pub module: String,
+    pub function: String,
+    /// tracked registers that must be valid, with their true values
+    pub must: Vec<(&'static str, u64)>,
+    /// tracked registers that may or may not be marked valid (STACK WIN leaves that open, see
+    /// assumptions) but must hold the true value if they are
+    pub may: Vec<(&'static str, u64)>,
+    /// tracked registers that must not be reported as valid
+    pub invalid: Vec<&'static str>,
+}
+
+pub struct Built {
+    pub arch: Arch,
+    pub os: Os,
+    pub regs: Vec<(&'static str, u64)>,
+    pub base: u64,
+    pub bytes: Vec<u8>,
+    pub modules: Vec<(String, u64, u64)>,
+    pub symbols: BTreeMap<String, String>,
+    pub expected: Vec<ExpFrame>,
+}
+impl Built {
+    pub fn context(&self) -> MinidumpContext {
+        MinidumpContext { raw: raw_context(self.arch, &self.regs), valid: MinidumpContextValidity::All }
+    }
+}
+
+pub const MOD_BASE: u64 = 0x4000_0000;
+pub const MOD_SIZE: u64 = 0x0008_0000;
+pub const STACK_BASE: u64 = 0x6000_0000;
+const LEAD_WORDS: u64 = 4;
+const TAIL_WORDS: u64 = 6;
+const PAC_BITS: u64 = 0x00b5_0000_0000_0000;
+
+/// Why a program is not a well-formed stack for its variant (kept out of the space, counted).
+pub type Infeasible = &'static str;
+
+/// Lay out memory, registers, modules and symbol text for `prog` and compute the expected chain.
+pub fn build(prog: &Program) -> Result<Built, Infeasible> {
+    let v = &VARIANTS[prog.variant];
+    let a = v.arch;
+    let p = a.ptr();
+    let d = prog.frames.len();
+    assert!(d >= 1 && d <= 64, "harness: depth");
+    let (_, nmods) = style_of(prog.style, 0);
+    let nmods = nmods as usize;
+    let has_fp_tech = match a {
+        Arch::X86 | Arch::Amd64 | Arch::Arm64 | Arch::Arm64Old => true,
+        Arch::Arm => v.os == Os::Ios,
+        _ => false,
+    };
+    // ---- static admissibility of the technique sequence
+    for (i, (t, _)) in prog.frames.iter().enumerate() {
+        if !v.techs.contains(t) {
+            return Err("technique not available on this variant");
+        }
+        if *t == Tech::Leaf && i != 0 {
+            return Err("leaf frame is only allowed as the first frame");
+        }
+    }
+    // ---- per-frame effective style
+    let tech = |i: usize| prog.frames[i].0;
+    let mut st: Vec<FrameStyle> = (0..d).map(|i| style_of(prog.style, i).0).collect();
+    for i in 0..d {
+        let s = &mut st[i];
+        match tech(i) {
+            Tech::Fp => s.mask |= 1,
+            Tech::WinFpo => s.mask &= 1,
+            Tech::Leaf => s.mask = 0,
+            // amd64 scanning forwards the callee's rbp: a scanned function must not have clobbered it
+            Tech::Scan if a == Arch::Amd64 => s.mask &= !1,
+            _ => {}
+        }
+        if !(a == Arch::Amd64 && v.os == Os::Windows && tech(i) == Tech::Fp) {
+            s.slack = 0;
+        }
+        if !matches!(a, Arch::Arm64 | Arch::Arm64Old) || !matches!(tech(i), Tech::Fp | Tech::Cfi) {
+            s.pac = false;
+        }
+    }
+    // ---- frame sizes, stack pointers
+    let mut size: Vec<u64> = prog.frames.iter().map(|f| f.1).collect();
+    for i in 0..d {
+        if tech(i) == Tech::Leaf {
+            size[i] = 0;
+        } else if size[i] < 6 {
+            return Err("frame too small for the uniform layout");
+        }
+        if tech(i) == Tech::Fp {
+            // slack must fit between the frame start and the saved-fp slot
+            let max_k = (size[i] - 2) / 2;
+            st[i].slack = st[i].slack.min(max_k);
+        }
+    }
+    let mut sp = vec![STACK_BASE + LEAD_WORDS * p];
+    for i in 0..d {
+        sp.push(sp[i] + size[i] * p);
+    }
+    let total_words = LEAD_WORDS + size.iter().sum::<u64>() + TAIL_WORDS;
+    let dummy = sp[d] + 2 * p; // readable, zero-filled area past the outermost frame
+    // value a function leaves in the frame-pointer register when it uses it as a scratch register,
+    // chosen so that the frame-pointer technique fails on it as the walker sources document
+    let junk = match a {
+        Arch::Amd64 => dummy,                        // [rbp], [rbp+8] = 0: bp' < sp' rejects every offset
+        Arch::Arm if v.os == Os::Ios => 4,           // non-zero (0 is a forced stop) and unreadable
+        _ => 0,                                      // x86: unreadable; arm64: pc 0 is rejected; arm/mips: no fp technique
+    };
+    // ---- modules and functions
+    let mod_name = |k: usize| if k == 0 { "m".to_string() } else { "n".to_string() };
+    let mod_base = |k: usize| MOD_BASE + k as u64 * MOD_SIZE;
+    let frel = |i: usize| 0x1000 * ((i / nmods) as u64 + 1);
+    let faddr = |i: usize| mod_base(i % nmods) + frel(i);
+    let pc0 = faddr(0) + 0x10;
+    let ra = |i: usize| if i + 1 < d { faddr(i + 1) + 0x20 } else { 0 };
+    // STACK WIN parameter size declared by function i's record (FUNC records declare 0)
+    let params = |i: usize| if matches!(tech(i), Tech::WinFd | Tech::WinFpo) && st[i].params { 4u64 } else { 0 };
+    let gcps = |j: usize| if j >= 1 { params(j - 1) } else { 0 };
+    // ---- true register values, outermost first
+    const FP: usize = 0;
+    let fresh = |r: usize, j: usize| if r == 1 { 0x0dea_0000 + j as u64 } else { 0x0bee_0000 + j as u64 };
+    let mut truth = vec![[0u64; 3]; d + 1];
+    truth[d] = [junk, fresh(1, d), fresh(2, d)];
+    for j in (0..d).rev() {
+        truth[j][FP] = if tech(j) == Tech::Fp {
+            sp[j + 1] - 2 * p - 16 * st[j].slack
+        } else if st[j].mask & 1 != 0 {
+            junk
+        } else {
+            truth[j + 1][FP]
+        };
+        for r in 1..3 {
+            truth[j][r] = if st[j].mask & (1 << r) != 0 { fresh(r, j) } else { truth[j + 1][r] };
+        }
+    }
+    // ---- memory image
+    let mut words = vec![0u64; total_words as usize];
+    for (k, w) in words.iter_mut().enumerate().take(LEAD_WORDS as usize) {
+        *w = 0x0bad_0000 + k as u64; // red zone below sp: not an address in any module
+    }
+    let widx = |addr: u64| ((addr - STACK_BASE) / p) as usize;
+    let tag = |i: usize, val: u64| if st[i].pac && val != 0 { val | PAC_BITS } else { val };
+    for i in 0..d {
+        if tech(i) == Tech::Leaf {
+            continue;
+        }
+        let top = widx(sp[i + 1]);
+        words[top - 1] = tag(i, ra(i));
+        if st[i].mask & 1 != 0 {
+            if tech(i) == Tech::WinFpo {
+                // documented fpo slot: esp + grand_callee_parameter_size + saved_register_size(8) - 8
+                words[widx(sp[i] + gcps(i))] = truth[i + 1][FP];
+            } else {
+                words[top - 2] = tag(i, truth[i + 1][FP]);
+            }
+        }
+        if st[i].mask & 2 != 0 {
+            words[top - 3] = truth[i + 1][1];
+        }
+        if st[i].mask & 4 != 0 {
+            words[top - 4] = truth[i + 1][2];
+        }
+    }
+    let bytes = words_to_bytes(&words, p);
+    let readable = |addr: u64| read_word(STACK_BASE, &bytes, p, addr).is_some();
+    // ---- symbol text
+    let names = [a.fp(), a.cs()[0], a.cs()[1]];
+    let mut sym: Vec<String> = (0..nmods).map(|k| format!("MODULE Linux x 000000000000000000000000000000000 {}\n", mod_name(k))).collect();
+    for i in 0..d {
+        let k = i % nmods;
+        let at = frel(i);
+        let s = &mut sym[k];
+        *s += &format!("FUNC {:x} 100 0 f{}\n", at, i);
+        let al = st[i].alias;
+        let spn = a.cfi_name(a.sp(), al);
+        match tech(i) {
+            Tech::Cfi => {
+                let mut regs = String::new();
+                for r in 0..3 {
+                    if st[i].mask & (1 << r) != 0 {
+                        regs += &format!(" {}: .cfa {} - ^", a.cfi_name(names[r], al), (r as u64 + 2) * p);
+                    }
+                }
+                if st[i].split {
+                    *s += &format!("STACK CFI INIT {:x} 100 .cfa: {} {} + .ra: .cfa {} - ^\n", at, spn, p, p);
+                    *s += &format!("STACK CFI {:x} .cfa: {} {} +{}\n", at + 4, spn, size[i] * p, regs);
+                    *s += &format!("STACK CFI {:x} .cfa: {} 0 + .ra: 0\n", at + 0x80, spn);
+                } else {
+                    *s += &format!("STACK CFI INIT {:x} 100 .cfa: {} {} + .ra: .cfa {} - ^{}\n", at, spn, size[i] * p, p, regs);
+                }
+            }
+            Tech::Leaf => {
+                let lr = a.cfi_name(a.lr().expect("harness: leaf needs lr"), al);
+                *s += &format!("STACK CFI INIT {:x} 100 .cfa: {} 0 + .ra: {}\n", at, spn, lr);
+            }
+            Tech::WinFd => {
+                let saved = 4 * (st[i].mask.count_ones() as u64);
+                let local = (size[i] - 1) * 4 - saved - gcps(i);
+                let mut prog_s = String::from("$T0 .raSearch = $eip $T0 ^ = $esp $T0 4 + =");
+                let wn = ["$ebp", "$ebx", "$esi"];
+                for r in 0..3 {
+                    if st[i].mask & (1 << r) != 0 {
+                        prog_s += &format!(" {} $T0 {} - ^ =", wn[r], 4 * (r + 1));
+                    }
+                }
+                *s += &format!("STACK WIN 4 {:x} 100 0 0 {:x} {:x} {:x} 0 1 {}\n", at, params(i), saved, local, prog_s);
+            }
+            Tech::WinFpo => {
+                let alloc = st[i].mask & 1 != 0;
+                let saved = if alloc { 8 } else { 0 };
+                let local = (size[i] - 1) * 4 - saved - gcps(i);
+                *s += &format!("STACK WIN 0 {:x} 100 0 0 {:x} {:x} {:x} 0 0 {}\n", at, params(i), saved, local, alloc as u8);
+            }
+            Tech::Fp | Tech::Scan => {}
+        }
+    }
+    // ---- walk the model: validity sets, feasibility of each technique, expected frames
+    let all: BTreeSet<usize> = [0, 1, 2].into_iter().collect();
+    let mut must = all.clone();
+    let mut may = all.clone();
+    let mk = |j: usize, trust: FrameTrust, must: &BTreeSet<usize>, may: &BTreeSet<usize>| ExpFrame {
+        resume: if j == 0 { pc0 } else { ra(j - 1) },
+        instruction: if j == 0 { pc0 } else { ra(j - 1) - a.adj() },
+        sp: sp[j],
+        trust,
+        module: mod_name(j % nmods),
+        function: format!("f{j}"),
+        must: must.iter().map(|&r| (names[r], truth[j][r])).collect(),
+        may: may.difference(must).map(|&r| (names[r], truth[j][r])).collect(),
+        invalid: all.difference(may).map(|&r| names[r]).collect(),
+    };
+    let mut expected = vec![mk(0, FrameTrust::Context, &must, &may)];
+    for j in 0..d - 1 {
+        let t = tech(j);
+        let (m2, y2): (BTreeSet<usize>, BTreeSet<usize>) = match t {
+            Tech::Cfi => {
+                let ruled: BTreeSet<usize> = (0..3).filter(|r| st[j].mask & (1 << r) != 0).collect();
+                (must.union(&ruled).copied().collect(), may.union(&ruled).copied().collect())
+            }
+            Tech::Leaf => (must.clone(), may.clone()),
+            Tech::WinFd => {
+                if !must.contains(&FP) {
+                    return Err("STACK WIN framedata needs a valid ebp in the callee");
+                }
+                let mut m: BTreeSet<usize> = (0..3).filter(|r| st[j].mask & (1 << r) != 0).collect();
+                m.insert(FP); // $ebp is pre-set from the callee and emitted even when the program does not assign it
+                if must.contains(&1) {
+                    m.insert(1); // likewise $ebx, when known
+                }
+                let y: BTreeSet<usize> = m.union(&may).copied().collect();
+                (m, y)
+            }
+            Tech::WinFpo => {
+                let alloc = st[j].mask & 1 != 0;
+                if !alloc && !must.contains(&FP) {
+                    return Err("STACK WIN fpo without a saved ebp needs a valid ebp in the callee");
+                }
+                let mut m: BTreeSet<usize> = [FP].into_iter().collect();
+                if !alloc && must.contains(&1) {
+                    m.insert(1);
+                }
+                let y: BTreeSet<usize> = m.union(&may).copied().collect();
+                (m, y)
+            }
+            Tech::Fp => {
+                if !has_fp_tech {
+                    return Err("no frame-pointer technique on this variant");
+                }
+                if !must.contains(&FP) {
+                    return Err("frame-pointer technique needs a valid frame pointer in the callee");
+                }
+                let m: BTreeSet<usize> = [FP].into_iter().collect();
+                (m.clone(), m)
+            }
+            Tech::Scan => {
+                if has_fp_tech && may.contains(&FP) && truth[j][FP] != junk {
+                    return Err("a live frame pointer would be followed before scanning");
+                }
+                let ctx_callee = j == 0;
+                if size[j] > a.scan_window(ctx_callee) || size[j] < a.scan_min(ctx_callee) {
+                    return Err("return address outside the documented scan window");
+                }
+                let slot = sp[j + 1] - p;
+                let mut m = BTreeSet::new();
+                match a {
+                    Arch::X86 => {
+                        let w = words[widx(slot - p)];
+                        if w > slot && w - (slot - p) <= 128 * 1024 {
+                            if readable(w) {
+                                if w != truth[j + 1][FP] {
+                                    return Err("scan would recover a frame pointer that is not the caller's");
+                                }
+                                m.insert(FP);
+                            }
+                        } else if may.contains(&FP) {
+                            if !must.contains(&FP) {
+                                return Err("scan after STACK WIN: validity of ebp is left open");
+                            }
+                            if truth[j][FP] >= sp[j + 1] && readable(truth[j][FP]) {
+                                if truth[j][FP] != truth[j + 1][FP] {
+                                    return Err("scan would forward a frame pointer that is not the caller's");
+                                }
+                                m.insert(FP);
+                            }
+                        }
+                    }
+                    Arch::Amd64 => {
+                        if must.contains(&FP) {
+                            let w = words[widx(slot - p)];
+                            if truth[j][FP] == slot - p && w > slot && w - (slot - p) <= 128 * 1024 {
+                                return Err("harness: saved-rbp scan case cannot occur in a scanned frame");
+                            } else if truth[j][FP] >= sp[j + 1] {
+                                if truth[j][FP] != truth[j + 1][FP] {
+                                    return Err("scan would forward a frame pointer that is not the caller's");
+                                }
+                                m.insert(FP);
+                            }
+                        }
+                    }
+                    _ => {}
+                }
+                (m.clone(), m)
+            }
+        };
+        must = m2;
+        may = y2;
+        expected.push(mk(j + 1, t.trust(), &must, &may));
+    }
+    // the outermost function's step must end the walk (return address 0, nothing to find)
+    if tech(d - 1) == Tech::Scan && d >= 2 && has_fp_tech && may.contains(&FP) && truth[d - 1][FP] != junk {
+        return Err("a live frame pointer would be followed at the end of the stack");
+    }
+    // ---- context registers
+    let mut regs: Vec<(&'static str, u64)> = vec![(a.ip(), pc0), (a.sp(), sp[0]), (names[0], truth[0][0]), (names[1], truth[0][1]), (names[2], truth[0][2])];
+    if let Some(lr) = a.lr() {
+        regs.push((lr, if tech(0) == Tech::Leaf { ra(0) } else { 0x0bad_beef }));
+    }
+    let modules = (0..nmods).map(|k| (mod_name(k), mod_base(k), MOD_SIZE)).collect();
+    let symbols = (0..nmods).map(|k| (mod_name(k), sym[k].clone())).collect();
+    Ok(Built { arch: a, os: v.os, regs, base: STACK_BASE, bytes, modules, symbols, expected })
+}
+
+pub fn describe_program(prog: &Program) -> serde_json::Value {
+    let v = &VARIANTS[prog.variant];
+    serde_json::json!({
+        "variant": v.label(),
+        "depth": prog.frames.len(),
+        "frames": prog.frames.iter().map(|(t, s)| format!("{}:{}w", t.name(), s)).collect::<Vec<_>>(),
+        "style": prog.style,
+    })
+}
+
+/// set of valid register names helper for C05
+pub fn validity(names: &[&'static str]) -> MinidumpContextValidity {
+    MinidumpContextValidity::Some(names.iter().copied().collect::<HashSet<&'static str>>())
+}
